@@ -5,12 +5,12 @@ import JsonC.Lemmas.TokenerXDoc3
 namespace JsonC.Tokener
 open JsonC Rfc8259 Rfc8259X
 
-theorem lit_denote (k : LitKind) (caps : List Bool) : (XDoc.lit k caps).erase.denote = k.doc.denote := by
-  cases k <;> rfl
+theorem lit_denote (k : LitKind) (caps : List Bool) : (XDoc.lit k caps).denote = k.doc.denote := by
+  simp [XDoc.denote]
 
 /-- default mode: every well-formed extended document within the depth limit parses to the value
 of the RFC 8259 document it stands for -/
-theorem xdoc_goal (lc : Libc) (hl : LibcSpec lc) : ∀ x, XGoal lc x := by
+theorem xdoc_goal (lc : Libc) (hl : LibcSpec lc) (hx : LibcSpecX lc) : ∀ x, XGoal lc x := by
   intro x
   induction x using xdoc_induct with
   | hlit k caps =>
@@ -19,7 +19,8 @@ theorem xdoc_goal (lc : Libc) (hl : LibcSpec lc) : ∀ x, XGoal lc x := by
     exact parsed_lit lc t l cur none rest hwf hs hv hhs hl0 k caps (by simpa [XDoc.ok] using hok) (Or.inl hns)
   | hnum n =>
     intro t l cur rest hwf hs hv hhs _ hns hok _ _
-    exact parsed_num lc hl t l cur none rest hwf hs hv hhs n (by simpa [XDoc.ok] using hok) (fun h => by rw [hns] at h; cases h)
+    have := parsed_xnum lc hl hx t l cur none rest hwf hs hv hhs n (by simpa [XDoc.ok] using hok) hns
+    simpa [XDoc.text, XDoc.denote] using this
   | hstr q items =>
     intro t l cur rest hwf hs hv hhs hl0 hns hok _ _
     exact parsed_qstring_x lc t l cur none rest hwf hs hv hhs hl0 hns q items (by simpa [XDoc.ok] using hok)
@@ -42,7 +43,7 @@ theorem xdoc_goal (lc : Libc) (hl : LibcSpec lc) : ∀ x, XGoal lc x := by
       have h3 := close_empty_array lc t2 l (f2'.noVal hv) [] none rest hs2 c2 (off + 1 + g.text.length) (nb :: rs)
       simp only [List.cons_append, List.nil_append, lastOr, List.getLast?_singleton, Option.getD_some, List.length_singleton] at h3
       rw [e, hh, hr2, h3]
-      have hd : (XDoc.arr g [] tr).erase.denote = .arr [] := by simp [XDoc.erase, xelemsErase, Doc.denote, elemsDenote]
+      have hd : (XDoc.arr g [] tr).denote = .arr [] := by simp [XDoc.denote, xelemsDenote]
       rw [hd]
       refine ⟨{ t2 with stack := ⟨.eatws, .finish, .arr [], none⟩ :: rest }, l, rfl, ⟨f2'.md, f2'.fl, f2'.hs⟩, ?_, hl0, ?_⟩
       · exact wf_restack hwf hs rfl f2'.md (topOk_finish _ _) (posOk_of_ne (by simp) (by simp) (by simp))
@@ -63,7 +64,7 @@ theorem xdoc_goal (lc : Libc) (hl : LibcSpec lc) : ∀ x, XGoal lc x := by
       have hh := h1 c off (intercalateB 44 (xelemsText (e0 :: r)) ++ (trailText tr ++ 93 :: (nb :: rs)))
       simp only [lastOr, List.getLast?_singleton, Option.getD_some, List.length_singleton] at hh
       rw [e, hh, hrun]
-      refine ⟨t', l', by simpa [XDoc.erase, Doc.denote] using hs', f1.trans f', ?_, hl', ?_⟩
+      refine ⟨t', l', by simpa [XDoc.denote] using hs', f1.trans f', ?_, hl', ?_⟩
       · exact wf_restack hwf hs hs' (f1.trans f').md (topOk_finish _ _) (posOk_of_ne (by simp) (by simp) (by simp))
       · have e2 : (XDoc.arr g (e0 :: r) tr).text = (91 :: intercalateB 44 (xelemsText (e0 :: r)) ++ trailText tr) ++ [93] := by
           simp [XDoc.text]
@@ -90,7 +91,7 @@ theorem xdoc_goal (lc : Libc) (hl : LibcSpec lc) : ∀ x, XGoal lc x := by
       have h3 := close_empty_object lc t2 l (f2'.noVal hv) [] none rest hs2 c2 (off + 1 + g.text.length) (nb :: rs)
       simp only [List.cons_append, List.nil_append, lastOr, List.getLast?_singleton, Option.getD_some, List.length_singleton] at h3
       rw [e, hh, hr2, h3]
-      have hd : (XDoc.obj g [] tr).erase.denote = .obj [] := by simp [XDoc.erase, xmembersErase, Doc.denote, membersDenote]
+      have hd : (XDoc.obj g [] tr).denote = .obj [] := by simp [XDoc.denote, xmembersDenote]
       rw [hd]
       refine ⟨{ t2 with stack := ⟨.eatws, .finish, .obj [], none⟩ :: rest }, l, rfl, ⟨f2'.md, f2'.fl, f2'.hs⟩, ?_, hl0, ?_⟩
       · exact wf_restack hwf hs rfl f2'.md (topOk_finish _ _) (posOk_of_ne (by simp) (by simp) (by simp))
@@ -111,7 +112,7 @@ theorem xdoc_goal (lc : Libc) (hl : LibcSpec lc) : ∀ x, XGoal lc x := by
       have hh := h1 c off (intercalateB 44 (xmembersText (e0 :: r)) ++ (trailText tr ++ 125 :: (nb :: rs)))
       simp only [lastOr, List.getLast?_singleton, Option.getD_some, List.length_singleton] at hh
       rw [e, hh, hrun]
-      refine ⟨t', l', by simpa [XDoc.erase, Doc.denote] using hs', f1.trans f', ?_, hl', ?_⟩
+      refine ⟨t', l', by simpa [XDoc.denote] using hs', f1.trans f', ?_, hl', ?_⟩
       · exact wf_restack hwf hs hs' (f1.trans f').md (topOk_finish _ _) (posOk_of_ne (by simp) (by simp) (by simp))
       · have e2 : (XDoc.obj g (e0 :: r) tr).text = (123 :: intercalateB 44 (xmembersText (e0 :: r)) ++ trailText tr) ++ [125] := by
           simp [XDoc.text]
@@ -131,13 +132,13 @@ theorem xfollow_top (g : Gap) (hok : g.ok = true) : ∃ nb rs, g.text ++ [0] = n
     | block b => exact ⟨47, _, by simp [Gap.text, GapItem.text]; rfl, by simp [Follow]⟩
     | line b => exact ⟨47, _, by simp [Gap.text, GapItem.text]; rfl, by simp [Follow]⟩
 
-/-- **top level, default mode**: `gap value gap NUL` with extensions parses to the value of the
-RFC 8259 document it stands for; the end position is the length of the text -/
-theorem xtop_level (lc : Libc) (hl : LibcSpec lc) (t : Tok) (hwf : WF t) (hst : t.stack = [⟨.eatws, .start, .null, none⟩])
+/-- **top level, default mode**: `gap value gap NUL` with extensions parses to `XDoc.denote`
+(the value of the RFC 8259 document it stands for, up to the text retained by doubles: Spec/Rfc8259X.lean); the end position is the length of the text -/
+theorem xtop_level (lc : Libc) (hl : LibcSpec lc) (hx : LibcSpecX lc) (t : Tok) (hwf : WF t) (hst : t.stack = [⟨.eatws, .start, .null, none⟩])
     (hv : NoVal t) (hhs : t.hs = 0) (hns : t.strict = false) (x : XText) (hok : x.ok = true)
     (hknf : x.doc.erase.keysNulFree = true) (hdepth : 1 + x.doc.erase.nest ≤ t.maxDepth) :
     let f := parseEx lc t (x.text ++ [0])
-    f.err = .success ∧ f.value = some x.doc.erase.denote ∧ f.offset = x.text.length ∧ f.stuck = false ∧ f.fault = none := by
+    f.err = .success ∧ f.value = some x.doc.denote ∧ f.offset = x.text.length ∧ f.stuck = false ∧ f.fault = none := by
   simp only [XText.ok, Bool.and_eq_true] at hok
   have hsplit : x.text ++ [0] = x.lead.text ++ (x.doc.text ++ (x.trail.text ++ [0])) := by simp [XText.text]
   unfold parseEx
@@ -145,19 +146,19 @@ theorem xtop_level (lc : Libc) (hl : LibcSpec lc) (t : Tok) (hwf : WF t) (hst : 
     (x.doc.text ++ (x.trail.text ++ [0]))
   rw [hsplit, hra]
   obtain ⟨nb, rs, htr, hnb⟩ := xfollow_top x.trail hok.2
-  obtain ⟨t', l', hs', f', hwf', hl', hrun⟩ := xdoc_goal lc hl x.doc ta {} .null [] hwfa hsa (fa.noVal hv) fa.hs rfl
+  obtain ⟨t', l', hs', f', hwf', hl', hrun⟩ := xdoc_goal lc hl hx x.doc ta {} .null [] hwfa hsa (fa.noVal hv) fa.hs rfl
     (by rw [fa.strict]; exact hns) hok.1.2 hknf (by rw [fa.md]; simpa using hdepth) nb hnb (fun _ => rfl) ca (0 + x.lead.text.length) rs
   have f2 : Frm t t' := fa.trans f'
   rw [htr, hrun, ← htr]
-  obtain ⟨tb, cb, hsb, fb, _, hrb⟩ := run_gap lc t' l' .finish x.doc.erase.denote none [] hwf' hs' (f2.noVal hv) f2.hs x.trail hok.2
+  obtain ⟨tb, cb, hsb, fb, _, hrb⟩ := run_gap lc t' l' .finish x.doc.denote none [] hwf' hs' (f2.noVal hv) f2.hs x.trail hok.2
     (Or.inl (by rw [f2.strict]; exact hns)) (lastOr ca x.doc.text) (0 + x.lead.text.length + x.doc.text.length) [0]
   rw [hrb]
   have f3 : Frm t tb := f2.trans fb
-  have htl := run_trailer lc tb l' x.doc.erase.denote none hsb (f3.noVal hv) [] (by simp) cb
+  have htl := run_trailer lc tb l' x.doc.denote none hsb (f3.noVal hv) [] (by simp) cb
     (0 + x.lead.text.length + x.doc.text.length + x.trail.text.length)
   simp only [List.nil_append, List.length_nil, Nat.add_zero] at htl
   rw [htl]
-  have := epilogue_done tb l' x.doc.erase.denote none
+  have := epilogue_done tb l' x.doc.denote none
     (0 + x.lead.text.length + x.doc.text.length + x.trail.text.length) (f3.noVal hv)
   simp only at this
   refine ⟨this.1, this.2.1, ?_, this.2.2.2.1, this.2.2.2.2⟩
